@@ -399,23 +399,54 @@ def read_loop_rules(A, cf, rule, timeout_rule=None):
 
 
 def break_release_rule(A, cf, rule):
-    """every break out of a read loop caused by a transport failure is preceded by put(None)"""
+    """Whenever a read loop is left through a ``break`` (a failure: request refused, bad
+    status, bad body, socket closed or timed out) the write loop is released with
+    queue.put(None) - before the break or right after the loop - before the epilogue waits
+    for it."""
     name = cf['name']
     for loop in ('_read_loop_polling', '_read_loop_websocket'):
-        fi = A.func(cf['cls'] + '.' + loop)
-        whiles = [n for n in own_nodes(fi) if isinstance(n, ast.While)]
+        fi, ps = cpaths(A, cf, loop, loop_bound=1)
+        whiles = [canon_while(n) for n in own_nodes(fi) if isinstance(n, ast.While)]
+        if not whiles:
+            raise AnalysisError('%s: read loop of %s not found' % (rule, fi.qualname))
+        outer = min(whiles, key=lambda w: w.lineno)
+        lo, hi = outer.lineno, getattr(outer, 'end_lineno', None) or max(
+            getattr(x, 'lineno', outer.lineno) for x in ast.walk(outer))
+        inner = [(w.lineno, getattr(w, 'end_lineno', w.lineno)) for st in outer.body
+                 for w in ast.walk(st) if isinstance(w, (ast.While, ast.For, ast.AsyncFor))]
         n_b = 0
-        for w in whiles:
-            for blk in _blocks(canon_while(w)):
-                for i, st in enumerate(blk):
-                    if isinstance(st, ast.Break):
-                        n_b += 1
-                        prev = [ast.unparse(x) for x in blk[:i]]
-                        ok = any('self.queue.put(None)' in s for s in prev)
-                        A.check(ok, rule + '.release', '%s %s: leaving the read loop on a failure '
-                                'releases the write loop first (queue.put(None))' % (name, loop),
-                                A.site(fi, st), key='%s-%s-break-release' % (name, loop),
-                                behaviour='the write loop keeps waiting: wait() never returns')
+        seen = set()
+        for p in ps:
+            v = PV(p)
+            for i, e in enumerate(v.ev):
+                if e.kind != 'brk' or e.depth != 0 or e.node.lineno is None:
+                    continue
+                ln = e.node.lineno
+                if not (lo <= ln <= hi) or any(a_ <= ln <= b_ for a_, b_ in inner):
+                    continue        # a break of an inner loop
+                # this iteration: from the last evaluation of anything at the loop's first
+                # body line back to the break; afterwards: up to the waiting epilogue
+                start = max([j for j in range(i) if v.ev[j].kind == 'brk'] + [-1]) + 1
+                puts_before = [j for j in range(start, i) if v.ev[j].kind == 'call' and
+                               v.ev[j].depth == 0 and
+                               re.search(r'self\.queue\.put(_nowait)?\(None\)', txt(v.ev[j].expr))]
+                wait_at = next((j for j in range(i + 1, len(v.ev)) if v.ev[j].kind == 'call' and
+                                v.ev[j].depth == 0 and re.search(
+                                    r'write_loop_task(\.join\(|\))|_trigger_event\(', txt(v.ev[j].expr))),
+                               len(v.ev))
+                puts_after = [j for j in range(i + 1, wait_at) if v.ev[j].kind == 'call' and
+                              v.ev[j].depth == 0 and
+                              re.search(r'self\.queue\.put(_nowait)?\(None\)', txt(v.ev[j].expr))]
+                key = (ln, bool(puts_before or puts_after))
+                if key not in seen:
+                    seen.add(key)
+                    n_b += 1
+                A.check(bool(puts_before or puts_after), rule + '.release',
+                        '%s %s: leaving the read loop on a failure releases the write loop '
+                        '(queue.put(None)) before the epilogue waits for it' % (name, loop),
+                        A.site(fi, e.node), key='%s-%s-break-release' % (name, loop),
+                        detail=v.describe(60),
+                        behaviour='the write loop keeps waiting: wait() never returns')
         A.floor(rule, '%s %s breaks' % (name, loop), n_b, 3)
 
 
@@ -834,10 +865,29 @@ def loop_condition_rule(A, cf, rule):
         fi = A.func(cf['cls'] + '.' + fn)
         ws = [canon_while(n) for n in own_nodes(fi) if isinstance(n, ast.While)]
         outer = [w for w in ws if "self.state" in ast.unparse(w.test)]
+        tests = None
+        if not outer:
+            # the condition may live in a local flag that is (re)computed by assignments
+            for w_ in ws:
+                if isinstance(w_.test, ast.Name):
+                    vals = [n.value for n in own_nodes(fi) if isinstance(n, ast.Assign) and
+                            any(isinstance(t_, ast.Name) and t_.id == w_.test.id
+                                for t_ in n.targets)]
+                    vals = [x for x in vals if not (isinstance(x, ast.Constant) and
+                                                    x.value is False)]
+                    if vals and all('self.state' in ast.unparse(x) for x in vals):
+                        outer, tests = [w_], vals
+                        break
         if not outer:
             raise AnalysisError('%s: main loop of %s not found' % (rule, fi.qualname))
         w = outer[0]
-        t = w.test
+        for t in (tests or [w.test]):
+            _loop_cond_check(A, cf, rule, fi, fn, w, t)
+
+
+def _loop_cond_check(A, cf, rule, fi, fn, w, t):
+    name = cf['name']
+    if True:
         # the atoms that hold in every way the condition can be true (De Morgan aware)
         from sa.paths import _dnf
         alts = [{atom(x, pl) for x, pl in alt} for alt in _dnf(t, True)]
